@@ -39,6 +39,12 @@ func symSeed(format string, sd seedRec) []byte {
 		return []byte(jwsSeed(sd))
 	case "jwe":
 		return []byte(jweSeed(sd))
+	case "jweforge":
+		v, ok := forgeSeed(sd, symOp{})
+		if !ok {
+			rp.Bug("no honest object for the forge seed %s", sd)
+		}
+		return []byte(v)
 	case "jwk":
 		return []byte(jwkSeed(sd))
 	case "ocspresp", "ocspreq":
@@ -191,7 +197,7 @@ func applySym(format string, b []byte, op symOp) ([]byte, bool) {
 	case "hset", "hdrop", "hmove":
 		s, ok := applyHeader(format, string(b), op)
 		return []byte(s), ok
-	case "tlvlen", "tlvtag", "tlvdrop", "tlvdup", "tlvempty", "tlvnest":
+	case "tlvlen", "tlvtag", "tlvdrop", "tlvdup", "tlvempty", "tlvnest", "tlvinner":
 		return applyTLV(b, op)
 	}
 	rp.Bug("unknown symbolic operator %q", op.O)
@@ -311,8 +317,18 @@ func caseBytes(c *rp.Ctx, cs *mutCase) (b []byte, applicable bool) {
 		}
 		return b, true
 	}
-	b = symSeed(cs.F, cs.S)
-	for _, op := range cs.Y {
+	ops := cs.Y
+	if cs.F == "jweforge" && len(ops) > 0 && ops[0].O == "forge" {
+		// the hostile sender builds the object; further operators work on its serialisation
+		v, ok := forgeSeed(cs.S, ops[0])
+		if !ok {
+			return nil, false
+		}
+		b, ops = []byte(v), ops[1:]
+	} else {
+		b = symSeed(cs.F, cs.S)
+	}
+	for _, op := range ops {
 		var ok bool
 		if b, ok = applySym(cs.F, b, op); !ok {
 			return nil, false
@@ -346,7 +362,11 @@ func mutateBatch(c *rp.Ctx, raws []json.RawMessage) []rp.Result {
 	// build the randomised seeds once, before the workers start (and persist them for the isolated re-runs)
 	for _, cs := range cases {
 		if !ldFormats[cs.F] && !(len(cs.Y) == 1 && cs.Y[0].O == "random") {
-			symSeed(cs.F, cs.S)
+			if cs.F == "jweforge" && len(cs.Y) > 0 && cs.Y[0].O == "forge" {
+				forgeSeed(cs.S, cs.Y[0])
+			} else {
+				symSeed(cs.F, cs.S)
+			}
 		}
 	}
 	seeds.save()
@@ -376,7 +396,8 @@ func mutateBatch(c *rp.Ctx, raws []json.RawMessage) []rp.Result {
 				case strings.HasPrefix(o.ret, "stall"):
 					fails = append(fails, &failure{dec: d.name, what: o.ret, input: b, label: lbl})
 				}
-				if first && cs.X == "ok" && d.name == cs.S.Ok {
+				honest := cs.F == "jweforge" && len(cs.Y) == 0 && d.name == "jose.jwe.forged"
+				if first && (cs.X == "ok" && d.name == cs.S.Ok || honest) {
 					st.mu.Lock()
 					st.SeedTotal++
 					if o.ret == "ok" {
